@@ -91,8 +91,31 @@ def _run(ck):
                 if trait in ('new_lower_exp', 'new_upper_exp') and 'f64' in base:
                     where = enclosing_arm_pat(fn, s['node']) or pp(e, maxlen=40)
                     guards = [a for a in H.ancestors(fn, s['node']) if a.get('k') in ('If', 'Arm') and 'is_finite' in pp(a.get('c') or a.get('guard') or {}, maxlen=200)]
-                    ck.ob('R16.1', 'rust-float-literal|%s|%s' % (short(fn['path']), where), bool(guards), L.loc(s['node']),
-                          'finite values only reach `{:e}`' if guards else '`{:e}` prints non-finite values as `inf`/`NaN`, which are not C++ literals (a folded 1.0/0.0 reaches this arm)', fn=fn['path'])
+                    inv = False
+                    if not guards:
+                        # the producers keep the constant finite (C03 R3.3 float-constant-is-finite, on the same facts)
+                        import core as _coref
+                        import rules.c03 as c03
+
+                        class _Fin:
+                            depth = getattr(ck, 'depth', 0) + 1
+                            res = []
+
+                            def ob(self, rule, key, ok, *a, **k):
+                                self.res.append(ok)
+
+                            def floor(self, rule, count, minimum, what=''):
+                                self.res.append(count >= minimum)
+
+                            def analysed(self, *a):
+                                pass
+                        fin = _Fin()
+                        fin.res = []
+                        c03.float_constants_finite(fin, L, 'x')
+                        inv = bool(fin.res) and all(fin.res)
+                    ck.ob('R16.1', 'rust-float-literal|%s|%s' % (short(fn['path']), where), bool(guards) or inv, L.loc(s['node']),
+                          'finite values only reach `{:e}`' + ('' if guards else ' (every construction of a Float constant is guarded: C03 R3.3)') if guards or inv else
+                          '`{:e}` prints non-finite values as `inf`/`NaN`, which are not C++ literals (a folded 1.0/0.0 reaches this arm)', fn=fn['path'])
         for c in H.calls_in(fn['body']):
             if c.get('m') in RUST_ESCAPERS:
                 ck.ob('R16.1', 'rust-escaper|%s|%s' % (short(fn['path']), c['m']), False, L.loc(c),
